@@ -1317,6 +1317,9 @@ func classifyLoop(li *loopInfo) (string, string) {
 	if strings.HasPrefix(c, "rangechan") || strings.HasPrefix(c, "rangefunc") {
 		return "other", "range over channel/function"
 	}
+	if why := fixpointWalk(li); why != "" {
+		return "counted", why
+	}
 	// counted loop: header (or a body block that exits) ends in If on
 	// BinOp(i REL bound) where i = phi(init, i ± const) and bound is
 	// loop-invariant
@@ -1354,6 +1357,205 @@ func classifyLoop(li *loopInfo) (string, string) {
 		best = why
 	}
 	return "other", best
+}
+
+// fixpointWalk recognises `for cur := x; …; { next := g(cur); if next == cur { leave };
+// cur = next }` over a local cell: every iteration replaces cur by g(cur) and
+// the loop is left when g(cur) == cur.  It terminates when the orbit of g
+// reaches a fixed point from every start: g (an in-repo function) returns its
+// argument or one of finitely many constant structs, and the successor
+// relation among those constants — g evaluated on each by constant propagation,
+// every executable return counted — has no cycle other than self loops.
+func fixpointWalk(li *loopInfo) string {
+	fn := li.header.Parent()
+	for _, b := range fn.Blocks {
+		if !li.body[b] {
+			continue
+		}
+		for _, ins := range b.Instrs {
+			st, ok := ins.(*ssa.Store)
+			if !ok {
+				continue
+			}
+			cur, ok := st.Addr.(*ssa.Alloc)
+			if !ok {
+				continue
+			}
+			call, ok := st.Val.(*ssa.Call)
+			if !ok {
+				continue
+			}
+			g := call.Common().StaticCallee()
+			if g == nil || !inRepoFn(g) || len(g.Blocks) == 0 || len(call.Common().Args) != 1 || len(naturalLoops(g)) > 0 {
+				continue
+			}
+			if ld, ok := call.Common().Args[0].(*ssa.UnOp); !ok || ld.X != ssa.Value(cur) {
+				continue
+			}
+			// the only store to cur in the loop, executed on every path to the next iteration
+			only := true
+			for _, ref := range *cur.Referrers() {
+				if o, ok := ref.(*ssa.Store); ok && o != st && li.body[o.Block()] {
+					only = false
+				}
+			}
+			for _, l := range li.latch {
+				if !(st.Block() == l || st.Block().Dominates(l)) {
+					only = false
+				}
+			}
+			if !only {
+				continue
+			}
+			// the loop is left when g(cur) == cur: an If on that comparison whose true edge leaves
+			// the loop and whose false edge leads to the store
+			guarded := false
+			for _, bb := range fn.Blocks {
+				if !li.body[bb] {
+					continue
+				}
+				ifi, ok := bb.Instrs[len(bb.Instrs)-1].(*ssa.If)
+				if !ok {
+					continue
+				}
+				cmp, ok := ifi.Cond.(*ssa.BinOp)
+				if !ok || cmp.Op != token.EQL {
+					continue
+				}
+				isCur := func(v ssa.Value) bool { l, ok := v.(*ssa.UnOp); return ok && l.X == ssa.Value(cur) }
+				if !((cmp.X == ssa.Value(call) && isCur(cmp.Y)) || (cmp.Y == ssa.Value(call) && isCur(cmp.X))) {
+					continue
+				}
+				if !li.body[bb.Succs[0]] && edgeDominates(bb, 1, st.Block()) {
+					guarded = true
+				}
+			}
+			if !guarded {
+				continue
+			}
+			if n, ok := orbitsReachFixpoint(g); ok {
+				return fmt.Sprintf("walk cur = %s(cur) left when %s(cur) == cur: the function returns its argument or one of %d constants whose successor relation (constant propagation of the function on each) has no cycle besides the fixed points", g.Name(), g.Name(), n)
+			}
+		}
+	}
+	return ""
+}
+
+func orbitsReachFixpoint(g *ssa.Function) (int, bool) {
+	key := func(v aval) (string, bool) {
+		if v.k != kStruct {
+			return "", false
+		}
+		var parts []string
+		for _, e := range v.elems {
+			if e.k != kConst {
+				return "", false
+			}
+			parts = append(parts, e.c.ExactString())
+		}
+		return strings.Join(parts, "\x00"), true
+	}
+	// constants the function can return for an arbitrary argument
+	consts := map[string]aval{}
+	res := newAnalyzer().analyze(g, nil)
+	if res.nonconverged || len(res.rets) == 0 {
+		return 0, false
+	}
+	for _, ri := range res.rets {
+		if len(ri.vals) != 1 {
+			return 0, false
+		}
+		if k, ok := key(ri.vals[0]); ok {
+			consts[k] = ri.vals[0]
+			continue
+		}
+		// otherwise it must hand its argument back unchanged
+		ld, ok := ri.instr.Results[0].(*ssa.UnOp)
+		if !ok {
+			if _, isPrm := ri.instr.Results[0].(*ssa.Parameter); isPrm {
+				continue
+			}
+			return 0, false
+		}
+		al, ok := ld.X.(*ssa.Alloc)
+		if !ok {
+			return 0, false
+		}
+		fromParam := false
+		nst := 0
+		for _, ref := range *al.Referrers() {
+			if st, ok := ref.(*ssa.Store); ok && st.Addr == ssa.Value(al) {
+				nst++
+				if _, isPrm := st.Val.(*ssa.Parameter); isPrm {
+					fromParam = true
+				}
+			}
+		}
+		if !fromParam || nst != 1 {
+			return 0, false
+		}
+	}
+	// successor relation, closed under the function
+	succ := map[string][]string{}
+	work := []string{}
+	for k := range consts {
+		work = append(work, k)
+	}
+	sort.Strings(work)
+	for len(work) > 0 && len(consts) <= 64 {
+		k := work[0]
+		work = work[1:]
+		if _, done := succ[k]; done {
+			continue
+		}
+		succ[k] = []string{}
+		r := newAnalyzer().analyze(g, []aval{consts[k]})
+		if r.nonconverged || len(r.rets) == 0 {
+			return 0, false
+		}
+		for _, ri := range r.rets {
+			nk, ok := key(ri.vals[0])
+			if !ok {
+				return 0, false
+			}
+			if nk == k {
+				continue // fixed point: the loop is left
+			}
+			if _, known := consts[nk]; !known {
+				consts[nk] = ri.vals[0]
+			}
+			succ[k] = append(succ[k], nk)
+			work = append(work, nk)
+		}
+	}
+	if len(consts) > 64 {
+		return 0, false
+	}
+	// acyclic?
+	state := map[string]int{}
+	var visit func(k string) bool
+	visit = func(k string) bool {
+		switch state[k] {
+		case 1:
+			return false
+		case 2:
+			return true
+		}
+		state[k] = 1
+		for _, n := range succ[k] {
+			if !visit(n) {
+				return false
+			}
+		}
+		state[k] = 2
+		return true
+	}
+	for k := range succ {
+		if !visit(k) {
+			return 0, false
+		}
+	}
+	return len(consts), true
 }
 
 func classifyExit(bo *ssa.BinOp, li *loopInfo) (string, string) {
